@@ -60,6 +60,9 @@ fn main() {
     let code = match prop.as_str() {
         "C01" => props::c01::run(tier, seed, only.and_then(|s| s.parse().ok())),
         "C03" => props::c03::run(tier, seed, only),
+        "C08" => props::c08::run(tier, seed, only.and_then(|s| s.parse().ok())),
+        "C09" => props::c09::run(tier, seed, only),
+        "C06" => props::c06::run(tier, seed, only.and_then(|s| s.parse().ok())),
         _ => {
             eprintln!("unknown property {prop}");
             2
